@@ -10,6 +10,7 @@ import (
 	"strings"
 	"unicode"
 	"unicode/utf8"
+	"unsafe"
 
 	"golang.org/x/tools/go/ssa"
 	"verif/engine/smt"
@@ -32,6 +33,22 @@ func (e *Env) intrinsic(name string, fn *ssa.Function) externalFn {
 	}
 	if e.isStubPkg(path) {
 		return func(fr *frame, args []value) value { return zeroResults(fn) }
+	}
+	if path == "sync/atomic" || path == "internal/runtime/atomic" {
+		if f := atomicIntrinsic(fn); f != nil {
+			return f
+		}
+	}
+	if path == "reflect" || path == "internal/reflectlite" || path == "internal/abi" {
+		// Reflection is not interpreted. Package initialisers of third-party libraries use it to
+		// fill type tables that only reflection-based code reads: there (and only there) it is a
+		// zero-returning stub; anywhere else it is a machinery error.
+		return func(fr *frame, args []value) value {
+			if fr.i.px.inInit > 0 {
+				return zeroResults(fn)
+			}
+			panic(engineError{"reflection is not supported outside package initialisers: " + name + " [interp stack: " + fr.stackFromCaller() + "]"})
+		}
 	}
 	return nil
 }
@@ -95,6 +112,11 @@ func (fr *frame) rangeSigned(t *smt.Term, bits int) {
 		return
 	}
 	c := fr.ctx()
+	if bits == w-1 {
+		// |x| < 2^(w-1): everything but the minimum value
+		fr.i.px.assertPC(c.Not(c.Eq(t, c.BVConst(uint64(1)<<uint(w-1), w))))
+		return
+	}
 	lim := c.BVConst(uint64(1)<<uint(bits), w)
 	fr.i.px.assertPC(c.And(c.SLt(c.Neg(lim), t), c.SLt(t, lim)))
 }
@@ -415,6 +437,56 @@ func errorsIs(fr *frame, err, target value) bool {
 	return false
 }
 
+// errorsAs implements errors.As without reflection: target is an interface value holding *T.
+func errorsAs(fr *frame, err, target value) bool {
+	e := err.(iface)
+	t := target.(iface)
+	if t.t == nil {
+		panic(runtimePanic{"errors: target cannot be nil"})
+	}
+	pt, ok := t.t.Underlying().(*types.Pointer)
+	if !ok {
+		panic(runtimePanic{"errors: target must be a non-nil pointer"})
+	}
+	T := pt.Elem()
+	cell := t.v.(*value)
+	for depth := 0; depth < 64 && e.t != nil; depth++ {
+		if it, isIface := T.Underlying().(*types.Interface); isIface {
+			if types.Implements(e.t, it) {
+				*cell = e
+				return true
+			}
+		} else if types.Identical(e.t, T) {
+			*cell = copyVal(e.v)
+			return true
+		}
+		if m := findMethod(fr.i.prog, e.t, "As"); m != nil && m.Signature.Params().Len() == 1 {
+			if r, ok := call(fr.i, fr, token.NoPos, m, []value{copyVal(e.v), target}).(bool); ok && r {
+				return true
+			}
+		}
+		m := findMethod(fr.i.prog, e.t, "Unwrap")
+		if m == nil || m.Signature.Params().Len() != 0 || m.Signature.Results().Len() != 1 {
+			return false
+		}
+		r := call(fr.i, fr, token.NoPos, m, []value{copyVal(e.v)})
+		switch r := r.(type) {
+		case iface:
+			e = r
+		case []value:
+			for _, x := range r {
+				if errorsAs(fr, x, target) {
+					return true
+				}
+			}
+			return false
+		default:
+			return false
+		}
+	}
+	return false
+}
+
 // deepEqual is reflect.DeepEqual over interpreter values (structural; symbolic leaves give a
 // symbolic result).
 func deepEqual(fr *frame, x, y value, depth int) value {
@@ -707,6 +779,19 @@ func DefaultIntrinsics() map[string]externalFn {
 		m[n] = func(fr *frame, a []value) value { return tuple{0, iface{}} }
 	}
 	m["errors.Is"] = func(fr *frame, a []value) value { return errorsIs(fr, a[0], a[1]) }
+	m["errors.As"] = func(fr *frame, a []value) value { return errorsAs(fr, a[0], a[1]) }
+	m["encoding/json.Marshal"] = func(fr *frame, a []value) value {
+		return tuple{[]value{byte('{'), byte('}')}, iface{}}
+	}
+	m["runtime/debug.Stack"] = func(fr *frame, a []value) value { return []value{} }
+	m["time.Now"] = func(fr *frame, a []value) value {
+		// deterministic clock: 2026-01-01T00:00:00Z plus one second per call (wall=0: no monotonic part)
+		px := fr.i.px
+		px.clock++
+		const unixToInternal = (1969*365 + 1969/4 - 1969/100 + 1969/400) * 86400
+		sec := int64(1767225600) + unixToInternal + int64(px.clock)
+		return structure{uint64(0), sec, (*value)(nil)}
+	}
 	m["reflect.DeepEqual"] = func(fr *frame, a []value) value { return deepEqual(fr, a[0], a[1], 0) }
 
 	// --- sort
@@ -877,4 +962,116 @@ func (e *Env) AddIntrinsicZero(name string) {
 	e.intrinsics[name] = func(fr *frame, args []value) value {
 		return zeroResults(fr.fn)
 	}
+}
+
+// atomicIntrinsic implements sync/atomic's assembly functions on the boxed representation
+// (single-threaded execution: plain loads and stores).
+func atomicIntrinsic(fn *ssa.Function) externalFn {
+	name := fn.Name()
+	if fn.Signature.Recv() != nil {
+		// (*atomic.Value) methods use unsafe word tricks
+		recv := fn.Signature.Recv().Type().String()
+		if !strings.HasSuffix(recv, "sync/atomic.Value") {
+			return nil
+		}
+		cell := func(a []value) *value {
+			p := a[0].(*value)
+			if p == nil {
+				panic(runtimePanic{"invalid memory address or nil pointer dereference"})
+			}
+			return &(*p).(structure)[0]
+		}
+		switch name {
+		case "Load":
+			return func(fr *frame, a []value) value { return *cell(a) }
+		case "Store":
+			return func(fr *frame, a []value) value {
+				if a[1].(iface).t == nil {
+					panic(targetPanic{iface{t: types.Typ[types.String], v: "sync/atomic: store of nil value into Value"}})
+				}
+				*cell(a) = a[1]
+				return nil
+			}
+		case "Swap":
+			return func(fr *frame, a []value) value { c := cell(a); old := *c; *c = a[1]; return old }
+		case "CompareAndSwap":
+			return func(fr *frame, a []value) value {
+				c := cell(a)
+				if r, ok := equals(fr, types.NewInterfaceType(nil, nil), *c, a[1]).(bool); ok && r {
+					*c = a[2]
+					return true
+				}
+				return false
+			}
+		}
+		return nil
+	}
+	addr := func(a []value) *value {
+		p := a[0].(*value)
+		if p == nil {
+			panic(runtimePanic{"invalid memory address or nil pointer dereference"})
+		}
+		return p
+	}
+	switch {
+	case strings.HasPrefix(name, "Load"):
+		return func(fr *frame, a []value) value {
+			v := *addr(a)
+			if name == "LoadPointer" {
+				if p, ok := v.(*value); ok {
+					return unsafe.Pointer(p)
+				}
+			}
+			return v
+		}
+	case strings.HasPrefix(name, "Store"):
+		return func(fr *frame, a []value) value { *addr(a) = a[1]; return nil }
+	case strings.HasPrefix(name, "Swap"):
+		return func(fr *frame, a []value) value { p := addr(a); old := *p; *p = a[1]; return old }
+	case strings.HasPrefix(name, "CompareAndSwap"):
+		return func(fr *frame, a []value) value {
+			p := addr(a)
+			cur, old := *p, a[1]
+			if cp, ok := cur.(*value); ok {
+				cur = unsafe.Pointer(cp)
+			}
+			eq := false
+			switch c := cur.(type) {
+			case unsafe.Pointer:
+				o, _ := old.(unsafe.Pointer)
+				eq = c == o
+			default:
+				r, ok := binop(fr, token.EQL, fn.Signature.Params().At(1).Type(), cur, old).(bool)
+				if !ok {
+					panic(engineError{"atomic CompareAndSwap on symbolic value"})
+				}
+				eq = r
+			}
+			if eq {
+				*p = a[2]
+			}
+			return eq
+		}
+	case strings.HasPrefix(name, "Add"):
+		return func(fr *frame, a []value) value {
+			p := addr(a)
+			*p = binop(fr, token.ADD, fn.Signature.Params().At(1).Type(), *p, a[1])
+			return *p
+		}
+	case strings.HasPrefix(name, "And"):
+		return func(fr *frame, a []value) value {
+			p := addr(a)
+			old := *p
+			*p = binop(fr, token.AND, fn.Signature.Params().At(1).Type(), *p, a[1])
+			return old
+		}
+	case strings.HasPrefix(name, "Or"):
+		return func(fr *frame, a []value) value {
+			p := addr(a)
+			old := *p
+			*p = binop(fr, token.OR, fn.Signature.Params().At(1).Type(), *p, a[1])
+			return old
+		}
+	}
+	return nil
 }
